@@ -523,10 +523,23 @@ Definition toy (k : nat) : body :=
                 b_fun := fun x => [zn x 0 + 10 * zn x 1 + 100 * zn x 2 + 1000 * zn x 3; zn x 0 - zn x 3] |}
   | 4%nat => {| b_ins := [("a", Some 4); ("b", Some 6)]; b_outs := ["a"; "q"];
                 b_fun := fun x => [zn x 0 + zn x 1; zn x 0 * zn x 1 + 1] |}
-  | _ => {| b_ins := [("x", Some 1); ("y", Some 2); ("z", Some 3)]; b_outs := ["w"];
-            b_fun := fun x => [zn x 0 * 100 + zn x 1 * 10 + zn x 2] |}
+  | 5%nat => {| b_ins := [("x", Some 1); ("y", Some 2); ("z", Some 3)]; b_outs := ["w"];
+                b_fun := fun x => [zn x 0 * 100 + zn x 1 * 10 + zn x 2] |}
+  (* two definitions of a body class of the same name "Scale" (a re-run notebook cell) *)
+  | 6%nat => {| b_ins := [("xs", None); ("factor", Some 1)]; b_outs := ["y"];
+                b_fun := fun x => [zn x 0 * 2 * zn x 1] |}
+  | 7%nat => {| b_ins := [("xs", None); ("factor", Some 1)]; b_outs := ["y"];
+                b_fun := fun x => [zn x 0 * 3 * zn x 1] |}
+  | _ => {| b_ins := [("xs", None); ("ys", None); ("val", Some 1)]; b_outs := ["u"; "w"];
+            b_fun := fun x => [zn x 0 + 10 * zn x 1 + 100 * zn x 2; zn x 0 * zn x 1] |}
   end.
 Close Scope Z_scope.
+(* __name__ of the toy body classes *)
+Definition toy_name (k : nat) : string :=
+  match k with
+  | 0 => "T0" | 1 => "T1" | 2 => "T2" | 3 => "T3" | 4 => "T4" | 5 => "T5"
+  | 6 => "Scale" | 7 => "Scale" | _ => "Pair"
+  end.
 
 Definition ozs (l : list Z) : obs := OL (map OZ l).
 Definition oss (l : list string) : obs := OL (map OS l).
@@ -604,3 +617,92 @@ Definition shortcut (b : body) (zip : bool) (held : list (string * option Z))
         let (st3, o) := run c order st2 in
         obs_outcome false st3 o
     end.
+
+(* ================================================================================== *)
+(* Part 5: for_node and the class registry of for_node_factory                           *)
+From Coq Require Import Ascii.
+
+(* str.title() on ASCII labels: a letter is upper-cased after a non-letter, lower-cased after
+   a letter *)
+Definition is_lower (a : ascii) : bool := let n := nat_of_ascii a in (97 <=? n) && (n <=? 122).
+Definition is_upper (a : ascii) : bool := let n := nat_of_ascii a in (65 <=? n) && (n <=? 90).
+Definition to_upper (a : ascii) : ascii := if is_lower a then ascii_of_nat (nat_of_ascii a - 32) else a.
+Definition to_lower (a : ascii) : ascii := if is_upper a then ascii_of_nat (nat_of_ascii a + 32) else a.
+Fixpoint title_go (prev_cased : bool) (s : string) : string :=
+  match s with
+  | EmptyString => EmptyString
+  | String a r => String (if prev_cased then to_lower a else to_upper a)
+                         (title_go (is_lower a || is_upper a) r)
+  end.
+Definition title (s : string) : string := title_go false s.
+
+(* how the caller spells iter_on / zip_on: a bare string or a tuple of strings *)
+Inductive spelling := SBare (s : string) | STuple (l : list string).
+(* `(x,) if isinstance(x, str) else x` *)
+Definition wrap (sp : spelling) : list string :=
+  match sp with SBare s => [s] | STuple l => l end.
+
+(* _for_node_class_name on wrapped field tuples *)
+Definition class_name (bname : string) (it zp : list string) (df : bool) : string :=
+  "For" ++ bname
+  ++ (if isnil it then "" else "Iter" ++ String.concat "" (map title it))
+  ++ (if isnil zp then "" else "Zip" ++ String.concat "" (map title zp))
+  ++ (if df then "DataOut" else "ListOut").
+
+Record request := {
+  q_name  : string;        (* body_node_class.__name__ *)
+  q_body  : body;
+  q_iter  : spelling;
+  q_zip   : spelling;
+  q_df    : bool;
+  q_map   : list (string * string);
+  q_cache : bool
+}.
+
+Definition cfg_of (q : request) : cfg :=
+  {| c_body := q_body q; c_iter := wrap (q_iter q); c_zip := wrap (q_zip q); c_df := q_df q;
+     c_map := q_map q; c_cache := q_cache q |}.
+
+(* _ClassFactory.class_registry of for_node_factory: class name -> the class made under it *)
+Definition registry := list (string * cfg).
+
+(* for_node(...) up to the class: wrap bare strings, clear the registry entry of the class
+   name, then for_node_factory(...): wrap (again), name the class, hand back the registered
+   class of that name or build (and check, and register) a new one *)
+Definition for_node_class (reg : registry) (q : request) : registry * res cfg :=
+  let it := wrap (q_iter q) in
+  let zp := wrap (q_zip q) in
+  let reg1 := del String.eqb (class_name (q_name q) it zp (q_df q)) reg in
+  let name := class_name (q_name q) (wrap (q_iter q)) (wrap (q_zip q)) (q_df q) in
+  match sassoc name reg1 with
+  | Some c => (reg1, Ok c)
+  | None =>
+      match check_class (cfg_of q) with
+      | Some e => (reg1, Err e)
+      | None => (supd name (cfg_of q) reg1, Ok (cfg_of q))
+      end
+  end.
+
+(* the instance of whatever class came back, then the steps *)
+Definition scenario_of (r : res cfg) (steps : list step) : obs :=
+  match r with
+  | Err e => OL [OL [OS "exc"; OS (exc_class e); OS (exc_tag e)]]
+  | Ok c => OL (OL [OS "created"] :: run_steps c (init_state c) steps)
+  end.
+
+(* type(node).__name__ as the caller can read it (nothing to read after a creation error) *)
+Definition name_of (q : request) (r : res cfg) : string :=
+  match r with
+  | Ok _ => class_name (q_name q) (wrap (q_iter q)) (wrap (q_zip q)) (q_df q)
+  | Err _ => ""
+  end.
+
+(* several for-nodes made and used one after the other in one process *)
+Fixpoint session_go (reg : registry) (qs : list (request * list step)) : list obs :=
+  match qs with
+  | [] => []
+  | (q, steps) :: r =>
+      let (reg', c) := for_node_class reg q in
+      OL [OS (name_of q c); scenario_of c steps] :: session_go reg' r
+  end.
+Definition session (qs : list (request * list step)) : obs := OL (session_go [] qs).
